@@ -66,7 +66,9 @@ func Parse(ctx context.Context, args []string, stdin io.Reader, stdout, stderr i
 	app.HelpFlag.Short('h')
 	app.UsageWriter(stderr)
 	app.ErrorWriter(stderr)
-	app.Terminate(func(int) {})
+	// (The parser would exit the process after printing help or completions; we note that it wanted to, instead.)
+	parserIsDone := false
+	app.Terminate(func(int) { parserIsDone = true })
 
 	// Output control helper.
 	//  Declared early because we reference it in action thunks;
@@ -322,8 +324,9 @@ func Parse(ctx context.Context, args []string, stdin io.Reader, stdout, stderr i
 			},
 		}
 	}
-	// Return behavior named by the command and subcommand strings.
-	if bhv, ok := bhvs[parsedCmdStr]; ok {
+	// Return behavior named by the command and subcommand strings --
+	//  unless the parser has printed help on the way ("rio unpack --help W /target"): then that was the request.
+	if bhv, ok := bhvs[parsedCmdStr]; ok && !parserIsDone {
 		return *bhv
 	}
 	// Anything else that parsed without error is one of the parser's own commands or flags ("help",
